@@ -66,6 +66,11 @@ def add_with_id(ctx, rule):
               "the token's fields are the parameters of the same meaning, in order", detail=sh)
     expect_defs(ctx, rule, b, sid, roles, {"Not(0)": "none", "SourceMapBuilder::add_source_with_id(arg1,some(arg6),arg7)": "interned"}, ["none", "interned"], "source id")
     expect_defs(ctx, rule, b, nid, roles, {"Not(0)": "none", "SourceMapBuilder::add_name(arg1,some(arg8))": "interned"}, ["none", "interned"], "name id")
+    for loc, arg, what in ((sid, "arg6", "source"), (nid, "arg8", "name")):
+        for sh, site, _ in q.def_shapes(b, loc, roles):
+            if sh == "Not(0)":
+                ctx.check(has_fact(b, site[0], roles, ("variant_in", arg, "(0,)"), ("variant_not_in", arg, "(1,)")), rule, fn, "tombstone:%s" % what,
+                          "the %s id is the tombstone only when no %s was given (every given string, the empty one included, is interned)" % (what, what), ctx.site(b, *site))
     pushes = [q.shape(b.expr_of_call(t), roles) for bi, t in q.calls_to(b, "Vec::<T, A>::push")]
     ctx.check(len(pushes) == 1 and pushes[0].startswith("Vec::push(arg1.tokens,RawToken{"), rule, fn, "push", "the token is appended to the builder's tokens")
     pb = [bi for bi, t in q.calls_to(b, "Vec::<T, A>::push")]
